@@ -1,4 +1,5 @@
 """C14 — the management API never blocks the data plane; a stalled client hurts only itself (lock-discipline kernels)."""
+import harness
 from specs import locks
 
 
